@@ -32,6 +32,7 @@ struct World {
     uint64_t deadline_ns = 0;           // absolute sim time after which unfinished threads are "stuck"
     volatile int ndone = 0, vcpus_up = 0, vcpus_down = 0;
     std::function<void(World&)> on_stuck;
+    std::function<void(int)> vcpu_end;     // optional per-vCPU hook after all its threads were joined
     std::function<void(int)> vcpu_extra;   // optional per-vCPU hook run on its main photon thread after spawning
     bool fini = true;
 
@@ -83,6 +84,7 @@ struct World {
             photon::thread_usleep(1500);
         }
         for (auto h : jh) photon::thread_join(h);
+        if (vcpu_end) vcpu_end(v);
         { sim::NoSched ns; vcpus_down++; }
         if (fini) {
             // a vCPU may only go away when nobody can touch it any more
